@@ -310,10 +310,16 @@ Definition is_listdir (c : call) : bool := match c with CListdir _ => true | _ =
 Definition confined (d : path) (c : call) : bool :=
   forallb (under d) (call_paths c) && negb (is_listdir c).
 
-Inductive prog_confined {A} (d : path) : prog A -> Prop :=
-| pc_ret : forall a, prog_confined d (Ret a)
-| pc_raise : forall e, prog_confined d (Raise e)
-| pc_do : forall c k, confined d c = true -> (forall r, prog_confined d (k r)) -> prog_confined d (Do c k).
+(* A program confined to the sub-tree d, relative to the initial state f0: every call names paths under d
+   only — except that it may STAT a proper ancestor of d (os.makedirs looks at the parent directory);
+   nothing confined elsewhere can change an ancestor, so such a stat returns what it returns in f0 and
+   only that continuation has to be confined. *)
+Inductive prog_confined {A} (f0 : fs) (d : path) : prog A -> Prop :=
+| pc_ret : forall a, prog_confined f0 d (Ret a)
+| pc_raise : forall e, prog_confined f0 d (Raise e)
+| pc_do : forall c k, confined d c = true -> (forall r, prog_confined f0 d (k r)) -> prog_confined f0 d (Do c k)
+| pc_anc : forall p k, under p d = true -> under d p = false ->
+    prog_confined f0 d (k (FOk (RKind (kind_of (get f0 p))))) -> prog_confined f0 d (Do (CStat p) k).
 
 Definition incomparable (a b : path) : Prop := under a b = false /\ under b a = false.
 
@@ -350,8 +356,7 @@ Proof. intros p q H. apply path_eqb_neq. apply under_neq. exact H. Qed.
 (* frame: a call changes only touched entries *)
 Lemma exec_frame : forall f c f' v q, exec f c = FOk (f', v) -> touches c q = false -> get f' q = get f q.
 Proof.
-  intros f c f' v q H Ht. destruct c; simpl in H;
-    try (rewrite (touches_single p q _ eq_refl) in Ht).
+  intros f c f' v q H Ht. unfold touches in Ht. destruct c; simpl in H, Ht; try rewrite orb_false_r in Ht.
   - inversion H; reflexivity.
   - destruct (get f p) as [[d|]|]; inversion H; reflexivity.
   - destruct (listdir f p); inversion H; reflexivity.
@@ -364,7 +369,7 @@ Proof.
     destruct (write_file f p c) as [f1|] eqn:E; inversion H; subst.
     rewrite (get_write_file _ _ _ _ q E). rewrite (under_neq_false _ _ Ht). reflexivity.
   - inversion H; reflexivity.
-  - unfold touches in Ht. simpl in Ht. rewrite orb_false_r in Ht. apply orb_false_iff in Ht. destruct Ht as [Ha Hb].
+  - apply orb_false_iff in Ht. destruct Ht as [Ha Hb].
     destruct (rename f a b) as [f1|] eqn:E; inversion H; subst. clear H.
     destruct (path_eqb a b) eqn:Eab.
     + apply path_eqb_eq in Eab. subst b. unfold rename in E.
@@ -380,4 +385,511 @@ Proof.
   - destruct (rmdir f p) as [f1|] eqn:E; inversion H; subst. rewrite (get_rmdir _ _ _ q E).
     rewrite (under_neq_false _ _ Ht). reflexivity.
   - destruct (get f p); inversion H; reflexivity.
+Qed.
+
+Lemma has_children_agree : forall f g b,
+  (forall q, under b q = true -> get f q = get g q) -> has_children f b = has_children g b.
+Proof.
+  intros f g b H.
+  assert (K : forall f g, (forall q, under b q = true -> get f q = get g q) ->
+                          has_children f b = true -> has_children g b = true).
+  { intros f1 g1 H1 Hc. apply has_children_get in Hc. destruct Hc as [q [n [Hb Hq]]].
+    apply has_children_get. exists q, n. split; auto. rewrite <- H1; auto. apply below_under. exact Hb. }
+  destruct (has_children f b) eqn:E1, (has_children g b) eqn:E2; auto.
+  - rewrite (K f g H E1) in E2. discriminate.
+  - rewrite (K g f (fun q Hq => eq_sym (H q Hq)) E2) in E1. discriminate.
+Qed.
+
+Definition res_agree (c : call) (x y : fres (fs * val)) : Prop :=
+  match x, y with
+  | FOk (f', v), FOk (g', v') => v = v' /\ forall q, touches c q = true -> get f' q = get g' q
+  | FErr e, FErr e' => e = e'
+  | _, _ => False
+  end.
+
+Lemma reads_path : forall c p, In p (call_paths c) -> reads c p = true.
+Proof.
+  intros c p H. unfold reads, touches. apply orb_true_iff. left. apply existsb_exists. exists p. split; auto.
+  apply under_refl.
+Qed.
+
+Lemma reads_parent : forall c p, In p (call_paths c) -> reads c (parent p) = true.
+Proof.
+  intros c p H. unfold reads. apply orb_true_iff. right. apply existsb_exists. exists p. split; auto.
+  apply path_eqb_refl.
+Qed.
+
+Lemma reads_under : forall c p q, In p (call_paths c) -> under p q = true -> reads c q = true.
+Proof.
+  intros c p q H Hu. unfold reads, touches. apply orb_true_iff. left. apply existsb_exists. exists p. auto.
+Qed.
+
+Lemma rename_outcome_agree : forall f g a b,
+  get g a = get f a -> get g (parent b) = get f (parent b) -> get g b = get f b ->
+  has_children g b = has_children f b ->
+  match rename f a b, rename g a b with
+  | FOk _, FOk _ => True
+  | FErr e, FErr e' => e = e'
+  | _, _ => False
+  end.
+Proof.
+  intros f g a b Ha Hp Hb Hc. unfold rename. rewrite Ha, Hp, Hb, Hc.
+  destruct (get f a) as [[d|]|]; auto; destruct (get f (parent b)) as [[d'|]|]; auto;
+    destruct (path_eqb a b); auto; destruct (get f b) as [[d''|]|]; auto;
+    destruct (under a b); auto; destruct (under b a); auto; destruct (has_children f b); auto.
+Qed.
+
+Lemma rmdir_outcome_agree : forall f g p,
+  get g p = get f p -> has_children g p = has_children f p ->
+  match rmdir f p, rmdir g p with
+  | FOk _, FOk _ => True
+  | FErr e, FErr e' => e = e'
+  | _, _ => False
+  end.
+Proof.
+  intros f g p Hp Hc. unfold rmdir. destruct p as [|x p]; auto. rewrite Hp, Hc.
+  destruct (get f (x :: p)) as [[d|]|]; auto. destruct (has_children f (x :: p)); auto.
+Qed.
+
+(* locality: the outcome of a call, and the new content of the entries it touches, depend only on
+   the entries it reads *)
+Lemma exec_agree : forall f g c, is_listdir c = false ->
+  (forall q, reads c q = true -> get f q = get g q) -> res_agree c (exec f c) (exec g c).
+Proof.
+  intros f g c Hl H. unfold res_agree.
+  destruct c; simpl in Hl; try discriminate; simpl.
+  - (* stat *) rewrite (H p (reads_path (CStat p) p (or_introl eq_refl))). split; auto.
+    intros q Hq. apply H. unfold reads. rewrite Hq. reflexivity.
+  - (* read *) rewrite <- (H p (reads_path (CRead p) p (or_introl eq_refl))).
+    destruct (get f p) as [[d|]|]; auto. split; auto. intros q Hq. apply H. unfold reads. rewrite Hq. reflexivity.
+  - (* mkdir *)
+    pose proof (H p (reads_path (CMkdir p) p (or_introl eq_refl))) as Hp.
+    pose proof (H (parent p) (reads_parent (CMkdir p) p (or_introl eq_refl))) as Hpp.
+    destruct (mkdir f p) as [f1|e1] eqn:E1; destruct (mkdir g p) as [g1|e2] eqn:E2; simpl;
+      unfold mkdir in E1, E2; rewrite <- Hp, <- Hpp in E2;
+      destruct (get f p); try discriminate; try congruence;
+      destruct (get f (parent p)) as [[d|]|]; try discriminate; try congruence.
+    split; auto. intros q Hq. inversion E1; inversion E2; subst.
+    assert (Hne : p <> []) by (intro; subst; discriminate).
+    rewrite !get_cons_entry by exact Hne. destruct (path_eqb q p); auto. apply H. unfold reads. rewrite Hq. reflexivity.
+  - (* open for write *)
+    pose proof (H p (reads_path (COpenW p) p (or_introl eq_refl))) as Hp.
+    pose proof (H (parent p) (reads_parent (COpenW p) p (or_introl eq_refl))) as Hpp.
+    destruct (write_file f p empty_content) as [f1|e1] eqn:E1; destruct (write_file g p empty_content) as [g1|e2] eqn:E2; simpl.
+    + split; auto. intros q Hq. rewrite (get_write_file _ _ _ _ q E1), (get_write_file _ _ _ _ q E2).
+      destruct (path_eqb q p); auto. apply H. unfold reads. rewrite Hq. reflexivity.
+    + unfold write_file in E1, E2. rewrite <- Hp, <- Hpp in E2.
+      destruct (get f p) as [[d|]|]; try discriminate; destruct (get f (parent p)) as [[d'|]|]; discriminate.
+    + unfold write_file in E1, E2. rewrite <- Hp, <- Hpp in E2.
+      destruct (get f p) as [[d|]|]; try discriminate; destruct (get f (parent p)) as [[d'|]|]; discriminate.
+    + unfold write_file in E1, E2. rewrite <- Hp, <- Hpp in E2.
+      destruct (get f p) as [[d|]|]; try congruence; destruct (get f (parent p)) as [[d'|]|]; congruence.
+  - (* write *)
+    pose proof (H p (reads_path (CWrite p c) p (or_introl eq_refl))) as Hp.
+    pose proof (H (parent p) (reads_parent (CWrite p c) p (or_introl eq_refl))) as Hpp.
+    unfold write_open. rewrite <- Hp.
+    destruct (get f p) as [[d|]|] eqn:Gp; simpl;
+      try (split; auto; intros q Hq; apply H; unfold reads; rewrite Hq; reflexivity).
+    destruct (write_file f p c) as [f1|e1] eqn:E1; destruct (write_file g p c) as [g1|e2] eqn:E2; simpl.
+    + split; auto. intros q Hq. rewrite (get_write_file _ _ _ _ q E1), (get_write_file _ _ _ _ q E2).
+      destruct (path_eqb q p); auto. apply H. unfold reads. rewrite Hq. reflexivity.
+    + unfold write_file in E1, E2. rewrite <- Hp, <- Hpp in E2. rewrite Gp in E1.
+      destruct (get f (parent p)) as [[d'|]|]; discriminate.
+    + unfold write_file in E1, E2. rewrite <- Hp, <- Hpp in E2. rewrite Gp in E1.
+      destruct (get f (parent p)) as [[d'|]|]; discriminate.
+    + unfold write_file in E1, E2. rewrite <- Hp, <- Hpp in E2. rewrite Gp in E1.
+      destruct (get f (parent p)) as [[d'|]|]; congruence.
+  - (* close *) split; auto. intros q Hq. apply H. unfold reads. rewrite Hq. reflexivity.
+  - (* rename *)
+    assert (Ia : In a (call_paths (CRename a b))) by (simpl; auto).
+    assert (Ib : In b (call_paths (CRename a b))) by (simpl; auto).
+    pose proof (H a (reads_path _ a Ia)) as Ha.
+    pose proof (H b (reads_path _ b Ib)) as Hb.
+    pose proof (H (parent b) (reads_parent _ b Ib)) as Hpb.
+    assert (Hc : has_children g b = has_children f b).
+    { symmetry. apply has_children_agree. intros q Hq. apply H. eapply reads_under; eauto. }
+    pose proof (rename_outcome_agree f g a b (eq_sym Ha) (eq_sym Hpb) (eq_sym Hb) Hc) as Ho.
+    destruct (rename f a b) as [f1|e1] eqn:E1; destruct (rename g a b) as [g1|e2] eqn:E2; simpl; try contradiction; auto.
+    split; auto. intros q Hq.
+    destruct (path_eqb a b) eqn:Eab.
+    + apply path_eqb_eq in Eab. subst b. unfold rename in E1, E2.
+      destruct (get f a) as [na|]; [|discriminate]. destruct (get g a) as [na'|]; [|discriminate].
+      destruct (get f (parent a)) as [[d|]|]; try discriminate. destruct (get g (parent a)) as [[d'|]|]; try discriminate.
+      rewrite path_eqb_refl in E1, E2. inversion E1; inversion E2; subst. apply H. unfold reads. rewrite Hq. reflexivity.
+    + apply path_eqb_neq in Eab. destruct (get f a) as [[d|]|] eqn:Ga.
+      * rewrite (get_rename_file f a b d f1 q Ga Eab E1).
+        assert (Gg : get g a = Some (File d)) by congruence.
+        rewrite (get_rename_file g a b d g1 q Gg Eab E2).
+        destruct (path_eqb q b); auto. destruct (path_eqb q a); auto. apply H. unfold reads. rewrite Hq. reflexivity.
+      * rewrite (get_rename_dir f a b f1 q Ga Eab E1).
+        assert (Gg : get g a = Some Dir) by congruence.
+        rewrite (get_rename_dir g a b g1 q Gg Eab E2).
+        destruct (strip b q) as [r|] eqn:Es.
+        -- apply H. eapply reads_under; [exact Ia|]. apply under_app.
+        -- destruct (under a q); auto. apply H. unfold reads. rewrite Hq. reflexivity.
+      * rewrite (rename_missing f a b Ga) in E1. discriminate.
+  - (* unlink *)
+    pose proof (H p (reads_path (CUnlink p) p (or_introl eq_refl))) as Hp.
+    destruct (unlink f p) as [f1|e1] eqn:E1; destruct (unlink g p) as [g1|e2] eqn:E2; simpl;
+      try (unfold unlink in E1, E2; rewrite <- Hp in E2; destruct (get f p) as [[d|]|]; congruence).
+    split; auto. intros q Hq. rewrite (get_unlink _ _ _ q E1), (get_unlink _ _ _ q E2).
+    destruct (path_eqb q p); auto. apply H. unfold reads. rewrite Hq. reflexivity.
+  - (* rmdir *)
+    pose proof (H p (reads_path (CRmdir p) p (or_introl eq_refl))) as Hp.
+    assert (Hc : has_children g p = has_children f p).
+    { symmetry. apply has_children_agree. intros q Hq. apply H. eapply reads_under; [left; reflexivity|exact Hq]. }
+    pose proof (rmdir_outcome_agree f g p (eq_sym Hp) Hc) as Ho.
+    destruct (rmdir f p) as [f1|e1] eqn:E1; destruct (rmdir g p) as [g1|e2] eqn:E2; simpl; try contradiction; auto.
+    split; auto. intros q Hq. rewrite (get_rmdir _ _ _ q E1), (get_rmdir _ _ _ q E2).
+    destruct (path_eqb q p); auto. apply H. unfold reads. rewrite Hq. reflexivity.
+  - (* meta *) rewrite <- (H p (reads_path (CMeta p) p (or_introl eq_refl))).
+    destruct (get f p); auto. split; auto. intros q Hq. apply H. unfold reads. rewrite Hq. reflexivity.
+Qed.
+
+(* ------------------------------------------------------------------ programs confined to a sub-tree *)
+(* the region an actor confined to d can read: d's sub-tree and d's ancestors *)
+Definition region (d q : path) : Prop := under d q = true \/ under q d = true.
+Definition agree_on (d : path) (f g : fs) : Prop := forall q, region d q -> get f q = get g q.
+
+Lemma under_parent_self : forall p, under (parent p) p = true.
+Proof.
+  intro p. destruct p as [|x p] using rev_ind; [reflexivity|].
+  rewrite parent_snoc. apply under_app.
+Qed.
+
+Lemma parent_app_cons : forall (d : path) x r, parent (d ++ x :: r) = d ++ parent (x :: r).
+Proof.
+  intros d x r. unfold parent. rewrite removelast_app by discriminate. reflexivity.
+Qed.
+
+Lemma region_parent : forall d p, under d p = true -> region d (parent p).
+Proof.
+  intros d p H. apply under_spec in H. destruct H as [r ->]. destruct r as [|x r].
+  - rewrite app_nil_r. right. apply under_parent_self.
+  - left. rewrite parent_app_cons. apply under_app.
+Qed.
+
+Lemma confined_reads_region : forall d c q, confined d c = true -> reads c q = true -> region d q.
+Proof.
+  intros d c q Hc Hr. unfold confined in Hc. apply andb_true_iff in Hc. destruct Hc as [Hc _].
+  rewrite forallb_forall in Hc. unfold reads, touches in Hr. apply orb_true_iff in Hr. destruct Hr as [Hr|Hr].
+  - apply existsb_exists in Hr. destruct Hr as [p [Hin Hu]]. left. eapply under_trans; [apply Hc; exact Hin|exact Hu].
+  - apply existsb_exists in Hr. destruct Hr as [p [Hin He]]. apply path_eqb_eq in He. subst q.
+    apply region_parent. apply Hc. exact Hin.
+Qed.
+
+Lemma confined_touches_under : forall d c q, confined d c = true -> touches c q = true -> under d q = true.
+Proof.
+  intros d c q Hc Ht. unfold confined in Hc. apply andb_true_iff in Hc. destruct Hc as [Hc _].
+  rewrite forallb_forall in Hc. unfold touches in Ht. apply existsb_exists in Ht. destruct Ht as [p [Hin Hu]].
+  eapply under_trans; [apply Hc; exact Hin|exact Hu].
+Qed.
+
+(* one call of a confined program, performed in a state that agrees with the solo state on the region,
+   gives the same result, keeps the agreement and changes nothing outside d *)
+Lemma sim_call : forall d c f g f' r,
+  confined d c = true -> agree_on d g f -> exec_res f c = (f', r) ->
+  exists g', exec_res g c = (g', r) /\ agree_on d g' f' /\ (forall q, under d q = false -> get g' q = get g q).
+Proof.
+  intros d c f g f' r Hc Ha He.
+  assert (Hl : is_listdir c = false).
+  { unfold confined in Hc. apply andb_true_iff in Hc. destruct Hc as [_ Hc]. apply negb_true_iff in Hc. exact Hc. }
+  assert (Hag : forall q, reads c q = true -> get g q = get f q).
+  { intros q Hq. apply Ha. eapply confined_reads_region; eauto. }
+  pose proof (exec_agree g f c Hl Hag) as R. unfold res_agree in R. unfold exec_res in *.
+  destruct (exec g c) as [[g1 v1]|e1] eqn:Eg; destruct (exec f c) as [[f1 v2]|e2] eqn:Ef; try contradiction.
+  - destruct R as [-> R]. inversion He; subst. exists g1. split; [reflexivity|]. split.
+    + intros q Hq. destruct (touches c q) eqn:Et.
+      * apply R. exact Et.
+      * rewrite (exec_frame _ _ _ _ q Eg Et), (exec_frame _ _ _ _ q Ef Et). apply Ha. exact Hq.
+    + intros q Hq. apply (exec_frame _ _ _ _ q Eg).
+      destruct (touches c q) eqn:Et; auto. rewrite (confined_touches_under d c q Hc Et) in Hq. discriminate.
+  - subst. inversion He; subst. exists g. split; [reflexivity|]. split; auto.
+Qed.
+
+(* reachability by executing calls *)
+Inductive reach {A} : prog A -> fs -> prog A -> fs -> Prop :=
+| reach_refl : forall p f, reach p f p f
+| reach_step : forall c k f f' r p2 f2,
+    exec_res f c = (f', r) -> reach (k r) f' p2 f2 -> reach (Do c k) f p2 f2.
+
+Lemma reach_snoc : forall A (p0 : prog A) f0 c k f f' r,
+  reach p0 f0 (Do c k) f -> exec_res f c = (f', r) -> reach p0 f0 (k r) f'.
+Proof.
+  intros A p0 f0 c k f f' r H. remember (Do c k) as p eqn:Ep. revert c k Ep f' r.
+  induction H; intros c0 k0 Ep f'0 r0 He.
+  - subst. eapply reach_step; [exact He|constructor].
+  - eapply reach_step; [exact H|]. eapply IHreach; eauto.
+Qed.
+
+Lemma reach_run : forall A (p0 : prog A) f0 p f, reach p0 f0 p f -> run p0 f0 = run p f.
+Proof.
+  intros A p0 f0 p f H. induction H; auto. simpl. rewrite H. exact IHreach.
+Qed.
+
+Definition same_outside (d : path) (f f0 : fs) : Prop := forall q, under d q = false -> get f q = get f0 q.
+
+(* one step of a confined program in its solo state f (equal to f0 outside d), mirrored in any state g
+   that agrees with f on the region: same result, confinement and both relations are kept, and g changes
+   only below d *)
+Lemma sim_step : forall A f0 d c (k : fres val -> prog A) f g f' r,
+  prog_confined f0 d (Do c k) -> same_outside d f f0 -> agree_on d g f -> exec_res f c = (f', r) ->
+  prog_confined f0 d (k r) /\ same_outside d f' f0 /  exists g', exec_res g c = (g', r) /\ agree_on d g' f' /\ (forall q, under d q = false -> get g' q = get g q).
+Proof.
+  intros A f0 d c k f g f' r Hc Hso Ha He. inversion Hc; subst.
+  - (* a call below d *)
+    destruct (sim_call d c f g f' r H1 Ha He) as [g' [Eg [Ha' Hfr]]].
+    split; [apply H2|]. split; [|exists g'; auto].
+    destruct (sim_call d c f f f' r H1 (fun q _ => eq_refl) He) as [f2 [E2 [_ Hfr2]]].
+    rewrite He in E2. inversion E2; subst f2. intros q Hq. rewrite Hfr2 by exact Hq. apply Hso. exact Hq.
+  - (* stat of an ancestor *)
+    unfold exec_res in He. simpl in He. inversion He; subst f' r. clear He.
+    rewrite (Hso p H3). split; [exact H4|]. split; [exact Hso|].
+    exists g. unfold exec_res. simpl. rewrite (Ha p (or_intror H2)), (Hso p H3). auto.
+Qed.
+
+Lemma reach_confined : forall A f0 d (p0 : prog A) f p f1,
+  prog_confined f0 d p0 -> same_outside d f f0 -> reach p0 f p f1 ->
+  prog_confined f0 d p /\ same_outside d f1 f0.
+Proof.
+  intros A f0 d p0 f p f1 Hc Hso H. induction H; auto.
+  destruct (sim_step _ f0 d c k f f f' r Hc Hso (fun q _ => eq_refl) H) as [Hck [Hso' _]]. auto.
+Qed.
+
+(* running a confined program to the end in a state that agrees with the solo state *)
+Lemma sim_run : forall A f0 d (p : prog A) f g,
+  prog_confined f0 d p -> same_outside d f f0 -> agree_on d g f ->
+  let '(f1, o1) := run p f in
+  let '(g1, o2) := run p g in
+  o1 = o2 /\ agree_on d g1 f1 /\ (forall q, under d q = false -> get g1 q = get g q).
+Proof.
+  induction p as [a|e|c k IH]; intros f g Hc Hso Ha; simpl; auto.
+  destruct (exec_res f c) as [f' r] eqn:Ef.
+  destruct (sim_step _ f0 d c k f g f' r Hc Hso Ha Ef) as [Hck [Hso' [g' [Eg [Ha' Hfr]]]]]. rewrite Eg.
+  specialize (IH r f' g' Hck Hso' Ha').
+  destruct (run (k r) f') as [f1 o1]. destruct (run (k r) g') as [g1 o2].
+  destruct IH as [Ho [Hag Hfr2]]. split; auto. split; auto.
+  intros q Hq. rewrite Hfr2 by exact Hq. apply Hfr. exact Hq.
+Qed.
+
+(* ------------------------------------------------------------------ disjoint-footprint commutation *)
+Lemma region_disjoint : forall d1 d2 q, incomparable d1 d2 -> region d2 q -> under d1 q = false.
+Proof.
+  intros d1 d2 q [H12 H21] [Hr|Hr]; destruct (under d1 q) eqn:E; auto.
+  - destruct (under_comparable d1 d2 q E Hr); congruence.
+  - rewrite (under_trans d1 q d2 E Hr) in H12. discriminate.
+Qed.
+
+Lemma nth_error_upd_nth_same : forall X (l : list X) a x y, nth_error l a = Some y -> nth_error (upd_nth a x l) a = Some x.
+Proof. induction l as [|z l IH]; intros [|a] x y H; simpl in *; try discriminate; eauto. Qed.
+
+Lemma nth_error_upd_nth_other : forall X (l : list X) a j x, j <> a -> nth_error (upd_nth a x l) j = nth_error l j.
+Proof.
+  induction l as [|z l IH]; intros [|a] [|j] x H; simpl; auto; try congruence.
+Qed.
+
+Lemma map_upd_nth : forall X Y (g : X -> Y) (l : list X) a x, map g (upd_nth a x l) = upd_nth a (g x) (map g l).
+Proof. induction l as [|z l IH]; intros [|a] x; simpl; auto. rewrite IH. reflexivity. Qed.
+
+Section DISJOINT.
+  Context {A : Type}.
+  Variable f0 : fs.
+
+  (* an actor: its directory, its program, and what is left of the program *)
+  Record actor := { a_dir : path; a_init : prog A; a_cur : prog A }.
+
+  Definition actor_ok (f : fs) (t : actor) : Prop :=
+    prog_confined f0 (a_dir t) (a_init t) /\
+    exists fi, reach (a_init t) f0 (a_cur t) fi /\ agree_on (a_dir t) f fi.
+
+  Definition all_ok (f : fs) (ts : list actor) : Prop := forall j t, nth_error ts j = Some t -> actor_ok f t.
+
+  Definition pairwise_incomparable (ts : list actor) : Prop :=
+    forall i j ti tj, i <> j -> nth_error ts i = Some ti -> nth_error ts j = Some tj -> incomparable (a_dir ti) (a_dir tj).
+
+  Definition outside (ts : list actor) (q : path) : Prop := forall t, In t ts -> under (a_dir t) q = false.
+
+  Lemma actor_ok_frame : forall f f' d t,
+    incomparable d (a_dir t) -> (forall q, under d q = false -> get f' q = get f q) -> actor_ok f t -> actor_ok f' t.
+  Proof.
+    intros f f' d t Hi Hfr [Hc [fi [Hr Ha]]]. split; auto. exists fi. split; auto.
+    intros q Hq. rewrite Hfr; [apply Ha; exact Hq|]. eapply region_disjoint; eauto.
+  Qed.
+
+  Lemma istep_ok : forall f ts a,
+    all_ok f ts -> pairwise_incomparable ts ->
+    exists ts', istep (f, map a_cur ts) a = (fst (istep (f, map a_cur ts) a), map a_cur ts') /\
+                map a_dir ts' = map a_dir ts /\ map a_init ts' = map a_init ts /\
+                all_ok (fst (istep (f, map a_cur ts) a)) ts' /\
+                (forall q, outside ts q -> get (fst (istep (f, map a_cur ts) a)) q = get f q).
+  Proof.
+    intros f ts a Hok Hpw. unfold istep. rewrite nth_error_map.
+    destruct (nth_error ts a) as [t|] eqn:Et; simpl; [|exists ts; auto].
+    destruct (a_cur t) as [x|e|c k] eqn:Ec; [exists ts; auto | exists ts; auto | ].
+    destruct (Hok a t Et) as [Hc [fi [Hr Ha]]]. rewrite Ec in Hr.
+    destruct (exec_res fi c) as [fi' r] eqn:Ei.
+    destruct (reach_confined _ f0 _ _ _ _ _ Hc (fun q _ => eq_refl) Hr) as [Hcc Hso].
+    destruct (sim_step _ f0 (a_dir t) c k fi f fi' r Hcc Hso Ha Ei) as [Hck [Hso' [f' [Ef [Ha' Hfr]]]]]. rewrite Ef. simpl.
+    set (t' := {| a_dir := a_dir t; a_init := a_init t; a_cur := k r |}).
+    exists (upd_nth a t' ts). split; [rewrite map_upd_nth; reflexivity|].
+    assert (Hm : forall Y (g : actor -> Y), g t' = g t -> map g (upd_nth a t' ts) = map g ts).
+    { intros Y g Hg. rewrite map_upd_nth, Hg. clear -Et. revert a Et. induction ts as [|z l IH]; intros [|a] Et; simpl in *; try discriminate; auto.
+      - inversion Et; subst. reflexivity.
+      - rewrite IH; auto. }
+    split; [apply Hm; reflexivity|]. split; [apply Hm; reflexivity|]. split.
+    - intros j tj Hj. destruct (Nat.eq_dec j a) as [->|Hne].
+      + rewrite (nth_error_upd_nth_same _ _ _ _ _ Et) in Hj. inversion Hj; subst tj. split; auto.
+        exists fi'. split; auto. simpl. eapply reach_snoc; eauto.
+      + rewrite nth_error_upd_nth_other in Hj by exact Hne.
+        eapply actor_ok_frame; [|exact Hfr|apply (Hok j tj Hj)]. apply (Hpw a j t tj); auto.
+    - intros q Hq. apply Hfr. apply Hq. eapply nth_error_In; eauto.
+  Qed.
+
+  Lemma pairwise_transfer : forall ts ts',
+    map a_dir ts' = map a_dir ts -> pairwise_incomparable ts -> pairwise_incomparable ts'.
+  Proof.
+    intros ts ts' Hd Hpw i j ti tj Hij Hi Hj.
+    assert (Di : nth_error (map a_dir ts) i = Some (a_dir ti)) by (rewrite <- Hd, nth_error_map, Hi; reflexivity).
+    assert (Dj : nth_error (map a_dir ts) j = Some (a_dir tj)) by (rewrite <- Hd, nth_error_map, Hj; reflexivity).
+    rewrite nth_error_map in Di, Dj.
+    destruct (nth_error ts i) as [ui|] eqn:Ui; [|discriminate]. destruct (nth_error ts j) as [uj|] eqn:Uj; [|discriminate].
+    simpl in Di, Dj. injection Di as Di. injection Dj as Dj. rewrite <- Di, <- Dj. eapply Hpw; eauto.
+  Qed.
+
+  Lemma irun_ok : forall sched f ts,
+    all_ok f ts -> pairwise_incomparable ts ->
+    exists f' ts', irun sched (f, map a_cur ts) = (f', map a_cur ts') /\
+                   map a_dir ts' = map a_dir ts /\ map a_init ts' = map a_init ts /\
+                   all_ok f' ts' /\ (forall q, outside ts q -> get f' q = get f q).
+  Proof.
+    induction sched as [|a sched IH]; intros f ts Hok Hpw.
+    - exists f, ts. simpl. auto.
+    - destruct (istep_ok f ts a Hok Hpw) as [ts1 [E1 [Hd1 [Hi1 [Hok1 Hfr1]]]]].
+      change (irun (a :: sched) (f, map a_cur ts)) with (irun sched (istep (f, map a_cur ts) a)).
+      rewrite E1.
+      assert (Hpw1 : pairwise_incomparable ts1).
+      { eapply pairwise_transfer; eauto. }
+      destruct (IH _ ts1 Hok1 Hpw1) as [f2 [ts2 [E2 [Hd2 [Hi2 [Hok2 Hfr2]]]]]].
+      exists f2, ts2. split; [exact E2|]. split; [congruence|]. split; [congruence|]. split; auto.
+      intros q Hq. rewrite Hfr2; [apply Hfr1; exact Hq|].
+      intros t Ht. apply (in_map a_dir) in Ht. rewrite Hd1 in Ht. apply in_map_iff in Ht. destruct Ht as [u [Hu Hin]].
+      rewrite <- Hu. apply Hq. exact Hin.
+  Qed.
+
+  (* running the remaining programs one after the other *)
+  Lemma finish_ok : forall ts f,
+    all_ok f ts -> pairwise_incomparable ts ->
+    let '(f1, os) := finish f (map a_cur ts) in
+    os = map (fun t => snd (run (a_init t) f0)) ts /\
+    (forall t, In t ts -> agree_on (a_dir t) f1 (fst (run (a_init t) f0))) /\
+    (forall q, outside ts q -> get f1 q = get f q).
+  Proof.
+    induction ts as [|t ts IH]; intros f Hok Hpw; simpl.
+    - split; auto. split; [intros t []|auto].
+    - destruct (Hok 0%nat t eq_refl) as [Hc [fi [Hr Ha]]].
+      destruct (reach_confined _ f0 _ _ _ _ _ Hc (fun q _ => eq_refl) Hr) as [Hcc Hso].
+      pose proof (sim_run _ f0 (a_dir t) (a_cur t) fi f Hcc Hso Ha) as S.
+      rewrite <- (reach_run _ _ _ _ _ Hr) in S.
+      destruct (run (a_init t) f0) as [fs1 o1] eqn:ER. destruct (run (a_cur t) f) as [f' o2].
+      destruct S as [Ho [Hag Hfr]].
+      assert (Hok' : all_ok f' ts).
+      { intros j tj Hj. eapply actor_ok_frame; [|exact Hfr|apply (Hok (S j) tj Hj)].
+        apply (Hpw 0%nat (S j) t tj); auto. }
+      assert (Hpw' : pairwise_incomparable ts).
+      { intros i j ti tj Hij Hi Hj. apply (Hpw (S i) (S j)); auto. }
+      specialize (IH f' Hok' Hpw'). destruct (finish f' (map a_cur ts)) as [f2 os].
+      destruct IH as [Hos [Hagr Hfr2]]. split; [simpl; congruence|]. split.
+      + intros u [<-|Hu]; [|apply Hagr; exact Hu]. rewrite ER. simpl.
+        intros q Hq. rewrite Hfr2; [apply Hag; exact Hq|].
+        intros u Hu. destruct (In_nth_error _ _ Hu) as [j Hj].
+        eapply region_disjoint; [|exact Hq]. apply (Hpw (S j) 0%nat u t); auto.
+      + intros q Hq. rewrite Hfr2; [apply Hfr; apply Hq; left; reflexivity|].
+        intros u Hu. apply Hq. right. exact Hu.
+  Qed.
+End DISJOINT.
+
+Definition start_actors {A} (ds : list path) (ps : list (prog A)) : list (@actor A) :=
+  map (fun dp => {| a_dir := fst dp; a_init := snd dp; a_cur := snd dp |}) (combine ds ps).
+
+(* Programs confined to pairwise incomparable directories: under EVERY schedule each program obtains
+   the result of running alone from the initial state, the final state holds, below each directory,
+   what that solo run leaves there, and nothing else changes — hence (taking the empty schedule) the
+   results and the state of the sequential composition. *)
+Theorem interleave_disjoint : forall A (ds : list path) (ps : list (prog A)) f0 sched,
+  length ds = length ps ->
+  (forall i d p, nth_error ds i = Some d -> nth_error ps i = Some p -> prog_confined f0 d p) ->
+  (forall i j di dj, i <> j -> nth_error ds i = Some di -> nth_error ds j = Some dj -> incomparable di dj) ->
+  let '(f1, os) := interleave sched f0 ps in
+  os = map (fun p => snd (run p f0)) ps /\
+  (forall i d p, nth_error ds i = Some d -> nth_error ps i = Some p -> agree_on d f1 (fst (run p f0))) /\
+  (forall q, (forall d, In d ds -> under d q = false) -> get f1 q = get f0 q).
+Proof.
+  intros A ds ps f0 sched Hlen Hconf Hinc.
+  set (ts := start_actors ds ps).
+  assert (Hcur : map a_cur ts = ps).
+  { unfold ts, start_actors. rewrite map_map. simpl. clear -Hlen. revert ps Hlen.
+    induction ds as [|d ds IH]; intros [|p ps] Hlen; simpl in *; try discriminate; auto. rewrite IH; auto. }
+  assert (Hinit : map a_init ts = ps).
+  { unfold ts, start_actors. rewrite map_map. simpl. clear -Hlen. revert ps Hlen.
+    induction ds as [|d ds IH]; intros [|p ps] Hlen; simpl in *; try discriminate; auto. rewrite IH; auto. }
+  assert (Hdir : map a_dir ts = ds).
+  { unfold ts, start_actors. rewrite map_map. simpl. clear -Hlen. revert ps Hlen.
+    induction ds as [|d ds IH]; intros [|p ps] Hlen; simpl in *; try discriminate; auto. rewrite IH; auto. }
+  assert (Hnth : forall j t, nth_error ts j = Some t ->
+                 nth_error ds j = Some (a_dir t) /\ nth_error ps j = Some (a_init t) /\ a_cur t = a_init t).
+  { intros j t Hj. split; [|split].
+    - rewrite <- Hdir, nth_error_map, Hj. reflexivity.
+    - rewrite <- Hinit, nth_error_map, Hj. reflexivity.
+    - unfold ts, start_actors in Hj. rewrite nth_error_map in Hj.
+      destruct (nth_error (combine ds ps) j) as [[d p]|]; inversion Hj. reflexivity. }
+  assert (Hok : all_ok f0 f0 ts).
+  { intros j t Hj. destruct (Hnth j t Hj) as [Hd [Hp Hc]]. split; [eapply Hconf; eauto|].
+    exists f0. rewrite Hc. split; [constructor|intros q _; reflexivity]. }
+  assert (Hpw : pairwise_incomparable ts).
+  { intros i j ti tj Hij Hi Hj. destruct (Hnth i ti Hi) as [Hdi _]. destruct (Hnth j tj Hj) as [Hdj _]. eapply Hinc; eauto. }
+  unfold interleave. replace (irun sched (f0, ps)) with (irun sched (f0, map a_cur ts)) by (rewrite Hcur; reflexivity).
+  destruct (irun_ok f0 sched f0 ts Hok Hpw) as [f' [ts' [E [Hd' [Hi' [Hok' Hfr']]]]]]. rewrite E.
+  assert (Hpw' : pairwise_incomparable ts').
+  { eapply pairwise_transfer; eauto. }
+  pose proof (finish_ok f0 ts' f' Hok' Hpw') as F.
+  destruct (finish f' (map a_cur ts')) as [f1 os]. destruct F as [Hos [Hag Hfr]].
+  split; [|split].
+  - rewrite Hos. rewrite <- (map_map a_init (fun p => snd (run p f0))). rewrite Hi', Hinit. reflexivity.
+  - intros i d p Hd Hp.
+    assert (Ht : exists t, nth_error ts' i = Some t /\ a_dir t = d /\ a_init t = p).
+    { assert (Di : nth_error (map a_dir ts') i = Some d) by (rewrite Hd', Hdir; exact Hd).
+      assert (Pi : nth_error (map a_init ts') i = Some p) by (rewrite Hi', Hinit; exact Hp).
+      rewrite nth_error_map in Di, Pi. destruct (nth_error ts' i) as [t|]; [|discriminate].
+      simpl in Di, Pi. inversion Di; inversion Pi. eauto. }
+    destruct Ht as [t [Ht [<- <-]]]. apply Hag. eapply nth_error_In; eauto.
+  - intros q Hq. rewrite Hfr.
+    + apply Hfr'. intros t Ht. apply Hq. rewrite <- Hdir. apply in_map. exact Ht.
+    + intros t Ht. apply Hq. rewrite <- Hdir, <- Hd'. apply in_map. exact Ht.
+Qed.
+
+Corollary interleave_disjoint_seq : forall A (ds : list path) (ps : list (prog A)) f0 sched,
+  length ds = length ps ->
+  (forall i d p, nth_error ds i = Some d -> nth_error ps i = Some p -> prog_confined f0 d p) ->
+  (forall i j di dj, i <> j -> nth_error ds i = Some di -> nth_error ds j = Some dj -> incomparable di dj) ->
+  snd (interleave sched f0 ps) = snd (sequential f0 ps) /\
+  fs_eq (fst (interleave sched f0 ps)) (fst (sequential f0 ps)).
+Proof.
+  intros A ds ps f0 sched Hlen Hc Hi.
+  pose proof (interleave_disjoint A ds ps f0 sched Hlen Hc Hi) as H1.
+  pose proof (interleave_disjoint A ds ps f0 [] Hlen Hc Hi) as H2.
+  rewrite interleave_nil in H2.
+  destruct (interleave sched f0 ps) as [f1 os1]. destruct (sequential f0 ps) as [f2 os2]. simpl.
+  destruct H1 as [Ho1 [Ha1 Hf1]]. destruct H2 as [Ho2 [Ha2 Hf2]]. split; [congruence|].
+  intro q. destruct (existsb (fun d => under d q) ds) eqn:E.
+  - apply existsb_exists in E. destruct E as [d [Hin Hu]].
+    destruct (In_nth_error _ _ Hin) as [i Hd].
+    assert (Hp : exists p, nth_error ps i = Some p).
+    { destruct (nth_error ps i) as [p|] eqn:Ep; eauto. apply nth_error_None in Ep.
+      assert (i < length ds)%nat by (apply nth_error_Some; congruence). lia. }
+    destruct Hp as [p Hp].
+    rewrite (Ha1 i d p Hd Hp q (or_introl Hu)). symmetry. apply (Ha2 i d p Hd Hp q (or_introl Hu)).
+  - assert (Ho : forall d, In d ds -> under d q = false).
+    { intros d Hd. destruct (under d q) eqn:Eu; auto.
+      assert (existsb (fun d => under d q) ds = true) by (apply existsb_exists; eauto). congruence. }
+    rewrite (Hf1 q Ho), (Hf2 q Ho). reflexivity.
 Qed.
